@@ -85,6 +85,32 @@ class Kernel:
         self.c = Sym(self.inner.target.id)
         self.builder.ranks.set(Sym(self.F), 2)
         self.builder.ranks.set(Sym(self.P), 2)
+        self.outer_range = self.builder.loop_range(self.outer)
+        # canonical row index: if the tables are written at row (v + c) of the loop variable v, re-express everything in
+        # i := v + c (a shifted loop is the same sweep)
+        row = tables[self.F][0].idx[0]
+        if row != self.i and isinstance(row, Poly):
+            shift = tm.add(row, tm.neg(self.i))
+            if isinstance(shift, Poly) and shift.const_value() is not None and self.outer_range is not None:
+                inew = Sym(self.i.name + "$row")
+                self.builder.ranks.set(inew, 0)
+                mp = {self.i.key: tm.add(inew, tm.neg(shift))}
+                import dataclasses
+                new_stores = []
+                for s_ in self.stores:
+                    if self.outer in s_.loops:
+                        s_ = dataclasses.replace(s_, idx=tuple(tm.substitute(x, mp) for x in s_.idx) if s_.idx is not None else None,
+                                                 value=tm.substitute(s_.value, mp), guards=tm.substitute(s_.guards, mp))
+                    new_stores.append(s_)
+                self.stores = new_stores
+                self.tables = {nm: [x for x in new_stores if x.base_name == nm and x.idx is not None and len(x.idx) == 2 and len(x.loops) == 2]
+                               for nm in tables}
+                r = self.outer_range
+                self.outer_range = Range(tm.add(r.lo, shift), tm.add(r.hi, shift), r.step)
+                self.i = inew
+                self.row_shift = mp
+        if not hasattr(self, "row_shift"):
+            self.row_shift = {}
 
     # templates -------------------------------------------------------------
     def t_at(self, x):
@@ -182,7 +208,7 @@ def _ord(k, s):
 def r2(ctx):
     k = Kernel(ctx.ana)
     fi = k.fi
-    rng = k.builder.loop_range(k.outer)
+    rng = k.outer_range
     want = Range(tm.add(k.T, -2), tm.const(-1), tm.const(-1))
     ctx.check(rng == want, fi, "outer loop is range(T-2, -1, -1)", line=k.outer.lineno, role="range:outer",
               expected=str(want), found=str(rng))
@@ -201,6 +227,8 @@ def _pieces(k: Kernel, name) -> List[Tuple[tm.T, tm.T]]:
     out = []
     for s in k.tables[name]:
         g = k.builder.guard_term(s.node, relative_to=body)
+        if k.row_shift:
+            g = tm.substitute(g, k.row_shift)
         for g2, v in tm.pieces_of(s.value):
             out.append((tm.conj([g, g2]), v))
     return out
@@ -377,11 +405,23 @@ def r7(ctx):
     lp = s.loops[0]
     j = Sym(lp.target.id) if isinstance(lp.target, ast.Name) else None
     rng = k.builder.loop_range(lp)
-    want_r = Range(0, tm.add(k.T, -1))
-    ctx.check(rng == want_r, fi, "read-out loop is range(T-1), ascending", line=lp.lineno, role="readout:range", expected=str(want_r), found=str(rng))
-    want_v = Idx(Sym(k.P), (j, Idx(Sym(pname), (j,)))) if j is not None else None
-    ctx.check(j is not None and s.idx == (tm.add(j, 1),) and s.value == want_v, fi, "path[i+1] = P[i, path[i]]", line=s.stmt.lineno,
-              role="readout:step", expected=f"{pname}[{j}+1] = {want_v}", found=f"{pname}[{s.idx[0]}] = {s.value}")
+    # the store is path[f(j)] = P[g(j), path[g(j)]] with f = g + 1; g must sweep 0, 1, ..., T-2 in ascending order
+    v = s.value
+    ok_shape = j is not None and isinstance(v, Idx) and v.base == Sym(k.P) and len(v.idx) == 2 and len(s.idx) == 1 \
+        and v.idx[1] == Idx(Sym(pname), (v.idx[0],))
+    g = v.idx[0] if ok_shape else None
+    ok_step = ok_shape and tm.add(s.idx[0], tm.neg(g)) == tm.ONE
+    ctx.check(bool(ok_step), fi, "path[i+1] = P[i, path[i]]", line=s.stmt.lineno, role="readout:step",
+              expected=f"{pname}[g+1] = {k.P}[g, {pname}[g]]", found=f"{pname}[{s.idx[0]}] = {s.value}")
+    ok_rng = False
+    if ok_shape and rng is not None and rng.step == tm.ONE:
+        off = tm.add(g, tm.neg(j))
+        if isinstance(off, Poly) and off.const_value() is not None:
+            first = tm.add(rng.lo, off)
+            last = tm.add(tm.add(rng.hi, -1), off)
+            ok_rng = first == tm.ZERO and last == tm.add(k.T, -2)
+    ctx.check(ok_rng, fi, "the read-out visits i = 0, 1, ..., T-2 in ascending order", line=lp.lineno, role="readout:range",
+              expected=f"i over range(0, {tm.add(k.T, -1)})", found=f"{j} over {rng} with row index {g}")
     # initial list has T entries so that every index 0..T-1 exists
     d = k.alloc_def(pname)
     t0 = k.builder.term(d.ast.value, d) if d is not None else None
@@ -432,7 +472,7 @@ def r9(ctx):
     ana = ctx.ana
     k = Kernel(ana)
     caller = k.caller
-    b = ana.builder(caller, no_inline=lambda f: True)
+    b = ana.builder(caller, no_inline=ana.known)
     call = k.call.node
     ba = bind_args(k.fi, call)
     m = Sym(caller.params[0])
